@@ -805,3 +805,46 @@ def gen_broadcast_spec(rng, wdomain='real', allow_inf=False, max_dom=3):
                 weights={}, wdomain=wdomain)
     gen_weights(rng, spec, (), allow_inf=allow_inf)
     return spec
+
+
+def gen_zero_cycle_spec(rng):
+    """Linear recursions whose factor tables contain cycles of log-weight exactly 0 that tie with the best
+    acyclic derivation (log domain): X(a) -> f(a,b) X(b) | stop(a), optionally through a second nonterminal."""
+    n = rng.randint(2, 4)
+    domains = {'L0': n}
+    two = rng.random() < 0.4
+    nts = {'S': [], 'X': ['L0']}
+    if two:
+        nts['Y'] = ['L0']
+    if rng.random() < 0.4:
+        nts['S'] = ['L0']
+    terminals = {'f': ['L0', 'L0'], 'stop': ['L0'], 'init': ['L0']}
+    rules = []
+    nxt = 'Y' if two else 'X'
+    rules.append(dict(lhs='X', nodes=['L0', 'L0'], ext=[0], edges=[['f', [0, 1]], [nxt, [1]]]))
+    rules.append(dict(lhs='X', nodes=['L0'], ext=[0], edges=[['stop', [0]]]))
+    if two:
+        terminals['g'] = ['L0', 'L0']
+        rules.append(dict(lhs='Y', nodes=['L0', 'L0'], ext=[0], edges=[['g', [0, 1]], ['X', [1]]]))
+        if rng.random() < 0.5:
+            rules.append(dict(lhs='Y', nodes=['L0'], ext=[0], edges=[['stop', [0]]]))
+    if nts['S']:
+        rules.append(dict(lhs='S', nodes=['L0'], ext=[0], edges=[['X', [0]]]))
+    else:
+        rules.append(dict(lhs='S', nodes=['L0'], ext=[], edges=[['init', [0]], ['X', [0]]]))
+    rng.shuffle(rules)
+
+    def tr():
+        r = rng.random()
+        return 0.0 if r < 0.45 else (-math.inf if r < 0.8 else rng.choice([-0.5, -1.0]))
+    weights = {'f': [[tr() for _ in range(n)] for _ in range(n)],
+               'stop': [(-math.inf if rng.random() < 0.5 else rng.choice([-1.0, -2.0, 0.0])) for _ in range(n)],
+               'init': [rng.choice([0.0, -0.5, -math.inf]) for _ in range(n)]}
+    if all(x == -math.inf for x in weights['stop']):
+        weights['stop'][rng.randrange(n)] = -1.0
+    if two:
+        weights['g'] = [[tr() for _ in range(n)] for _ in range(n)]
+    spec = dict(domains=domains, terminals={t: v for t, v in terminals.items() if any(t == l for r in rules for l, _ in r['edges'])},
+                nonterminals=nts, start='S', rules=rules, weights={}, wdomain='log')
+    spec['weights'] = {t: weights[t] for t in spec['terminals']}
+    return spec
